@@ -262,7 +262,7 @@ def run_history(cfg, ops, scratch):
     return None, sess
 
 
-class C11:
+class C11Base:
     ID = 'C11'
     ENGINE = 'e5'
     LEVEL = 'exploration'
@@ -338,3 +338,10 @@ class C11:
         if task.get('want_trace'):
             res['trace'] = traces
         return res
+
+
+from .taps import TapMixin, TicketTap  # noqa: E402
+
+
+class C11(TapMixin, C11Base):
+    TAP_CLASS = TicketTap
